@@ -89,7 +89,17 @@ class _Table(PyStub):
 def _mk_read_csv(calls):
     def read_csv(f, header='infer', nrows=None, sep=',', skip_blank_lines=True, delim_whitespace=False, **kw):
         from ..symx import ModelError
-        calls.append(dict(header=header, nrows=nrows, sep=sep, skip_blank_lines=skip_blank_lines, pos=f.pos, extra=sorted(kw)))
+        # keywords that change what value a printed cell becomes (or which cells are read), with the defaults the model assumes; anything else is outside the model
+        defaults = {'na_filter': True, 'keep_default_na': True, 'na_values': None, 'dtype': None, 'converters': None, 'true_values': None, 'false_values': None, 'thousands': None, 'decimal': '.',
+                    'comment': None, 'usecols': None, 'names': None, 'index_col': None, 'skiprows': None, 'skipfooter': 0, 'skipinitialspace': False, 'quotechar': '"', 'escapechar': None,
+                    'on_bad_lines': 'error', 'float_precision': None}
+        neutral = {'engine', 'encoding', 'memory_map', 'low_memory', 'encoding_errors', 'storage_options', 'compression', 'verbose'}
+        unknown = sorted(k_ for k_ in kw if k_ not in defaults and k_ not in neutral)
+        if unknown:
+            from ..symx import Opaque as _Opaque
+            raise _Opaque('read_csv keyword(s) %s are outside the model' % unknown)
+        changed = sorted('%s=%r' % (k_, v_) for k_, v_ in kw.items() if k_ in defaults and v_ != defaults[k_])
+        calls.append(dict(header=header, nrows=nrows, sep=sep, skip_blank_lines=skip_blank_lines, pos=f.pos, extra=sorted(kw), changed=changed))
         lines = [x for x in f.lines[f.pos:]]
         f.pos = len(f.lines)
         if skip_blank_lines:
@@ -198,6 +208,9 @@ def read_model(ctx):
                st if st != 'ok' else 'tables %s' % str(got)[:260], node=read, key='tables ' + tag)
         ctx.ob('READ', loc, '%s: every table read starts from the beginning of the stream (rewound after the scan and after each read) and counts non-blank lines as the scan did' % tag,
                st == 'ok' and all(c['pos'] == 0 and c['skip_blank_lines'] is True for c in calls) and len(calls) == len(want), str(calls)[:200], node=read, key='rewind ' + tag)
+        chg = sorted({x for c in calls for x in c.get('changed', ())})
+        ctx.ob('READ', loc, '%s: cells become values by pandas\' default rules (numbers as numbers, nan / -nan and the missing cells of a cut row as NaN in a numeric column): no keyword of the table read changes them' % tag,
+               not chg, 'read_csv called with %s' % chg, node=read, key='cell rules ' + tag)
         wantperf = [(h, f) for k, h, f in perf]
         ok = st == 'ok' and [(h, f) for h, f, old, pos in perfcalls] == wantperf and all(pos == 0 and old is False for h, f, old, pos in perfcalls) \
             and all(getattr(obj.attrs['_Log__simulations'][i_], 'performance', None) == ('PERF', h, f) for i_, (k, h, f) in enumerate(perf))
@@ -236,6 +249,15 @@ def read_model(ctx):
         if st[0] != 'ok' or o.attrs['_Log__lammps_date'] != ('DATE', 2019, k + 1, 7) or o.attrs['_Log__lammps_version'] != '7 %s 2019' % mname:
             bad.append((mname, o.attrs['_Log__lammps_date']))
     ctx.ob('TRIGGERS', loc, 'the twelve month abbreviations give months 1..12', not bad, str(bad), node=rv, key='months')
+    # suffixes LAMMPS has printed after the date: ' - Update N', and a build tag attached to the year ('30 Jul 2016-ICMS')
+    bad = []
+    for banner, ver, date in (('LAMMPS (30 Jul 2016-ICMS)', '30 Jul 2016-ICMS', ('DATE', 2016, 7, 30)), ('LAMMPS (29 Aug 2024 - Update 1)', '29 Aug 2024 - Update 1', ('DATE', 2024, 8, 29)),
+                              ('LAMMPS (2 Aug 2023)', '2 Aug 2023', ('DATE', 2023, 8, 2))):
+        o = new_log()
+        st = do_read(o, [banner + '\n', 'units real\n'])
+        if st[0] != 'ok' or o.attrs['_Log__lammps_date'] != date or o.attrs['_Log__lammps_version'] != ver:
+            bad.append((banner, st[0], o.attrs['_Log__lammps_version'], o.attrs['_Log__lammps_date']))
+    ctx.ob('TRIGGERS', loc, 'the date is read from the banner also when a suffix follows it: " - Update N", or a build tag attached to the year', not bad, str(bad), node=rv, key='date suffixes')
     o = new_log()
     do_read(o, ['  LAMMPS (7 Aug 2019)\n', 'Reading LAMMPS (data) file\n'])
     ctx.ob('TRIGGERS', loc, 'only a line that starts with "LAMMPS (" is a version banner', o.attrs['_Log__lammps_version'] is None, str(o.attrs['_Log__lammps_version']), node=read, key='banner start')
@@ -391,7 +413,26 @@ def flatten_model(ctx):
             va = a_.v if isinstance(a_, _Col) else np.asarray(a_, dtype=object)
             vb = b_.v if isinstance(b_, _Col) else np.asarray(b_, dtype=object)
             return len(va) == len(vb) and all(x is not None and y is not None and sp.simplify(sp.sympify(x) - sp.sympify(y)) == 0 for x, y in zip(va, vb))
-        ev.np_override = {'numpy.asarray': _cast, 'numpy.array': _cast, 'numpy.array_equal': arr_equal}
+        def arr_close(a_, b_, rtol=sp.Rational(1, 100000), atol=sp.Rational(1, 10 ** 8), **k_):
+            # a tolerant comparison of a column with its converted self: values that differ by less than one (a dropped fraction) pass it once they are large enough
+            # (|x - trunc x| < 1 <= atol + rtol |x| from 1e5 on), so for the tagged values of the model the test is taken at its most permissive; NaN is never close
+            if sp.sympify(rtol) == 0 and sp.sympify(atol) == 0:
+                return arr_equal(a_, b_)
+            va = a_.v if isinstance(a_, _Col) else np.asarray(a_, dtype=object)
+            vb = b_.v if isinstance(b_, _Col) else np.asarray(b_, dtype=object)
+            if len(va) != len(vb):
+                return False
+            for x, y in zip(va, vb):
+                if x is None or y is None:
+                    return False
+                dx = sp.simplify(sp.sympify(x) - sp.sympify(y))
+                if dx == 0:
+                    continue
+                if dx.is_number and sp.sympify(y).is_number:
+                    if not bool(sp.Abs(dx) <= sp.sympify(atol) + sp.sympify(rtol) * sp.Abs(sp.sympify(y))):
+                        return False
+            return True
+        ev.np_override = {'numpy.asarray': _cast, 'numpy.array': _cast, 'numpy.array_equal': arr_equal, 'numpy.allclose': arr_close}
         kw = {}
         if give_style:
             kw['style'] = style
